@@ -74,9 +74,30 @@ def ensure_gosum(module_dir):
         open(dst, "w").write(new)
 
 
+_module_copies = {}
+
+
+def _module_for_repo(module_dir):
+    """The harness go.mod files `replace` RedisGO/etcd with /repo paths. When VERIF_REPO points elsewhere
+    (self-tests against a scratch worktree) build from a scratch copy of the module with rewritten paths."""
+    if REPO == "/repo":
+        return module_dir
+    if module_dir in _module_copies:
+        return _module_copies[module_dir]
+    d = scratch("mod-")
+    dst = os.path.join(d, os.path.basename(module_dir))
+    shutil.copytree(module_dir, dst, ignore=shutil.ignore_patterns("go.sum"))
+    gm = os.path.join(dst, "go.mod")
+    txt = open(gm).read().replace("=> /repo", "=> " + REPO)
+    open(gm, "w").write(txt)
+    _module_copies[module_dir] = dst
+    return dst
+
+
 def go_build(module_dir, pkg, out, tags="verif", race=False, timeout=900):
     """Build package `pkg` of the Go module at module_dir (which `replace`s RedisGO => /repo) into `out`.
     Always rebuilds against /repo's current working tree (go's build cache keys on file content)."""
+    module_dir = _module_for_repo(module_dir)
     ensure_gosum(module_dir)
     cmd = ["go", "build", "-o", out]
     if tags:
